@@ -392,7 +392,11 @@ class Implicit:
                 elif name == "chr" and n.args:
                     out.append(("ext:ValueError", n, "chr(%s)" % norm(n.args[0])[:40]))
                 elif name == "next" and len(n.args) == 1:
-                    out.append(("ext:StopIteration", n, norm(n)))
+                    why = self._next_over_widths(fn, n)
+                    if why:
+                        self._record(fn, n, why)
+                    else:
+                        out.append(("ext:StopIteration", n, norm(n)))
                 elif last == "reduce" and name in ("reduce", "functools.reduce") and len(n.args) == 2:
                     # reduce(f, xs) without an initial value raises TypeError on an empty xs
                     why = self._never_empty(fn, n.args[1])
@@ -474,6 +478,56 @@ class Implicit:
         if not hasattr(self, "_expr_ok"):
             self._expr_ok = _expression_outcomes_ok(self.ctx)
         return self._expr_ok
+
+    def _next_over_widths(self, fn: FuncInfo, call: ast.Call) -> Optional[str]:
+        """`next(w for w in WIDTHS if E.bit_length() <= w)` where WIDTHS folds to integers up to at least 64 and E is a container
+        length (minus / plus constants): lengths are below 2**63, so some width always fits and the generator is never empty"""
+        g = call.args[0]
+        if not (isinstance(g, ast.GeneratorExp) and len(g.generators) == 1 and len(g.generators[0].ifs) == 1 and isinstance(g.generators[0].target, ast.Name)):
+            return None
+        gen = g.generators[0]
+        w = gen.target.id
+        if not (isinstance(g.elt, ast.Name) and g.elt.id == w):
+            return None
+        try:
+            from ..fold import Folder
+
+            widths = Folder({}, self.ctx.repo, fn.module, fn.cls).fold(gen.iter)
+            widths = [int(x) for x in widths]
+        except Exception:
+            return None
+        if not widths or max(widths) < 64:
+            return None
+        cond = gen.ifs[0]
+        if not (isinstance(cond, ast.Compare) and len(cond.ops) == 1):
+            return None
+        l, r, op = cond.left, cond.comparators[0], cond.ops[0]
+        if isinstance(op, ast.GtE) and isinstance(l, ast.Name) and l.id == w:
+            l, r, op = r, l, ast.LtE()
+        if not (isinstance(op, ast.LtE) and isinstance(r, ast.Name) and r.id == w and isinstance(l, ast.Call) and isinstance(l.func, ast.Attribute) and l.func.attr == "bit_length" and not l.args):
+            return None
+        e = l.func.value
+        local = {}
+        for st in ast.walk(fn.node):
+            if isinstance(st, ast.Assign) and len(st.targets) == 1 and isinstance(st.targets[0], ast.Name):
+                local.setdefault(st.targets[0].id, []).append(st.value)
+
+        def length_like(x: ast.AST, depth: int = 0) -> bool:
+            if depth > 4:
+                return False
+            if isinstance(x, ast.Call) and dotted(x.func) == "len" and len(x.args) == 1:
+                return True
+            if isinstance(x, ast.Constant) and isinstance(x.value, int) and not isinstance(x.value, bool) and abs(x.value) < 2**32:
+                return True
+            if isinstance(x, ast.BinOp) and isinstance(x.op, (ast.Add, ast.Sub)):
+                return length_like(x.left, depth + 1) and length_like(x.right, depth + 1)
+            if isinstance(x, ast.Name) and x.id in local and len(local[x.id]) == 1:
+                return length_like(local[x.id][0], depth + 1)
+            return False
+
+        if not length_like(e):
+            return None
+        return "a width always fits: %s is a container length (< 2**63) and the widths reach %d" % (norm(e)[:30], max(widths))
 
     def _never_empty(self, fn: FuncInfo, it: ast.AST) -> str:
         """`it` is `self` of a class whose instances are never empty: the constructor rejects an empty collection with an
@@ -588,23 +642,12 @@ class Implicit:
                         return self._record(fn, n, "literal table covers every member of %s" % r.name)
         return False
 
-    def _length_constraints_exclude(self, fn: FuncInfo, n: ast.Subscript, pm: Dict[ast.AST, ast.AST]) -> bool:
-        """
-        `seq[i]` with a constant index: collect the tests that must hold on the way to the access (enclosing if / else
-        branches, conditional expressions, and earlier `if T: <leave>` statements of the enclosing blocks) and fold them for
-        every length at which the index would be invalid; the access is safe if each such length falsifies one of them.
-        """
-        from ..linform import _local_defs
-
-        if not (isinstance(n.slice, ast.Constant) and isinstance(n.slice.value, int)) and not (isinstance(n.slice, ast.UnaryOp) and isinstance(n.slice.operand, ast.Constant)):
-            return False
-        i = n.slice.value if isinstance(n.slice, ast.Constant) else -n.slice.operand.value  # type: ignore
-        seq = norm(n.value)
-        need = i + 1 if i >= 0 else -i
-        defs = _local_defs(fn)
-        defs.pop(seq, None)
+    @staticmethod
+    def _constraints_at(node: ast.AST, pm: Dict[ast.AST, ast.AST]) -> List[Tuple[ast.AST, bool]]:
+        """the tests that must hold (or fail) on the way to `node` inside its function: enclosing if / else branches, conditional
+        expressions, conjunctions, and earlier `if T: <leave>` statements of the enclosing blocks"""
         constraints: List[Tuple[ast.AST, bool]] = []
-        cur: ast.AST = n
+        cur: ast.AST = node
         while cur in pm:
             par = pm[cur]
             if isinstance(par, ast.If):
@@ -634,7 +677,55 @@ class Implicit:
             if isinstance(par, (ast.FunctionDef, ast.Lambda)):
                 break
             cur = par
-        if not constraints:
+        return constraints
+
+    def _length_constraints_exclude(self, fn: FuncInfo, n: ast.Subscript, pm: Dict[ast.AST, ast.AST]) -> bool:
+        """
+        `seq[i]` with a constant index: collect the tests that must hold on the way to the access (enclosing if / else
+        branches, conditional expressions, and earlier `if T: <leave>` statements of the enclosing blocks) and fold them for
+        every length at which the index would be invalid; the access is safe if each such length falsifies one of them.
+        When `seq` is a parameter, the tests on the way to every call of the function (on the argument, in the caller) count too.
+        """
+        from ..core import parents_map
+        from ..linform import _local_defs
+
+        if not (isinstance(n.slice, ast.Constant) and isinstance(n.slice.value, int)) and not (isinstance(n.slice, ast.UnaryOp) and isinstance(n.slice.operand, ast.Constant)):
+            return False
+        i = n.slice.value if isinstance(n.slice, ast.Constant) else -n.slice.operand.value  # type: ignore
+        seq = norm(n.value)
+        need = i + 1 if i >= 0 else -i
+        defs = _local_defs(fn)
+        defs.pop(seq, None)
+        constraints = self._constraints_at(n, pm)
+        # the callers' side, when the sequence is a parameter that is not rebound
+        caller_sides: Optional[List[Tuple[str, List[Tuple[ast.AST, bool]], Dict[str, ast.AST]]]] = None
+        a = fn.node.args
+        params = [x.arg for x in a.posonlyargs + a.args + a.kwonlyargs]
+        rebound = any(isinstance(t, ast.Name) and t.id == seq and isinstance(t.ctx, ast.Store) for t in ast.walk(fn.node))
+        if isinstance(n.value, ast.Name) and seq in params and not rebound:
+            idx = params.index(seq) - (1 if fn.cls is not None and not fn.is_static and params and params[0] in ("self", "cls") else 0)
+            sides = []
+            ok_all = True
+            n_sites = 0
+            for q, sites in self.g.sites.items():
+                for st in sites:
+                    if st.kind != "call" or fn.qualname not in st.callees or not isinstance(st.node, ast.Call):
+                        continue
+                    cfn = self.g.funcs.get(q)
+                    if cfn is None or cfn.name.startswith("_unittest"):
+                        continue
+                    n_sites += 1
+                    call = st.node
+                    arg = call.args[idx] if 0 <= idx < len(call.args) and not any(isinstance(x, ast.Starred) for x in call.args) else next((k.value for k in call.keywords if k.arg == seq), None)
+                    if not isinstance(arg, ast.Name):
+                        ok_all = False
+                        continue
+                    cdefs = _local_defs(cfn)
+                    cdefs.pop(arg.id, None)
+                    sides.append((arg.id, self._constraints_at(call, parents_map(cfn.node)), cdefs))
+            if ok_all and n_sites:
+                caller_sides = sides
+        if not constraints and not caller_sides:
             return False
         for ln in range(0, need):
             excluded = False
@@ -643,6 +734,9 @@ class Implicit:
                 if r is not None and r != want:
                     excluded = True
                     break
+            if not excluded and caller_sides:
+                # every call site rules this length out for its argument
+                excluded = all(any((_fold_length_test(t_, nm_, ln, d_) is not None and _fold_length_test(t_, nm_, ln, d_) != w_) for t_, w_ in cs_) for nm_, cs_, d_ in caller_sides)
             if not excluded:
                 return False
         return True
